@@ -105,3 +105,22 @@ Theorem C06_into_writer : forall mf calls srcs out n compress decompress c,
                            (repeat ONext (S (length out))) = Done (st, rs) /\ rs = map Some out ++ [None]).
 Proof. exact merge_into_writer. Qed.
 Print Assumptions C06_into_writer.
+
+(* ================= the sources are reader cursors =================
+   cm_run: the merger transcribed over cursor states with a `next` function (heap of (source index,
+   current entry, cursor), advance every popped cursor and push it back unless exhausted).  With every
+   source a fresh cursor over a well-formed store — each file with its own loader, root and depth —
+   it computes exactly what the list-based merger computes on the contents of those stores: the
+   modelling of a source by the entries of its file is a theorem, not an assumption *)
+From Grenad.proofs Require Import MergeCursors.
+
+Theorem C06_sources_are_cursors : forall mf calls srcs ess, Forall2 reader_source srcs ess ->
+  cm_run rsrc rsnext mf calls (S (total_len ess)) srcs = merge_run mf calls ess.
+Proof. exact merge_of_readers. Qed.
+Print Assumptions C06_sources_are_cursors.
+
+Theorem C06_any_cursor : forall (St : Type) (snext : St -> outcome (St * option entry)) mf calls srcs ess,
+  Forall2 (yields St snext) srcs ess ->
+  cm_run St snext mf calls (S (total_len ess)) srcs = merge_run mf calls ess.
+Proof. exact cm_run_lists. Qed.
+Print Assumptions C06_any_cursor.
